@@ -513,6 +513,41 @@ theorem life2_quiesce {s : St} {t1 t2 t3 : Txn} (hi : Inv s) (hr : s.readers = [
   rw [(life2_one_owner i3).2 p, mem_owned, d3, f3, u3]
   simp [pagesOf]
 
+/-! ## Compaction (C13)
+
+`Database::compact()` is refused while a savepoint or a user's reader exists. Otherwise it is, for
+the bookkeeping, a sequence of aborted probe transactions and durable commits without savepoint
+operations (drain commits that keep the data tree, relocating commits that move it to lower pages;
+each with its epilogue). Its intermediate trees cannot be observed from outside, so the driver
+checks only its postcondition; the theorems cover every such sequence. -/
+
+def IsCompaction (ops : List Op) : Prop :=
+  ∀ op ∈ ops, (∃ k, op = .abort k) ∨ (∃ t, op = .commit t ∧ t.durable = true ∧ t.spOps = [])
+
+/-- compaction keeps the invariant and creates no pins; when it ends with three empty commits
+(the drain loop runs until no pending-free record is left) `life2_quiesce` applies -/
+theorem life2_compact {s : St} {ops : List Op} (hi : Inv s) (hc : IsCompaction ops)
+    (hg : guardAll s ops = true) (hr : s.readers = []) (hs : s.sps = []) :
+    Inv (run s ops) ∧ (run s ops).readers = [] ∧ (run s ops).sps = [] := by
+  induction ops generalizing s with
+  | nil => exact ⟨hi, hr, hs⟩
+  | cons op ops ih =>
+    simp only [guardAll, Bool.and_eq_true] at hg
+    have hi' := life2_inv_step hi hg.1
+    have hc' : IsCompaction ops := fun o ho => hc o (List.mem_cons_of_mem _ ho)
+    rcases hc op List.mem_cons_self with ⟨k, rfl⟩ | ⟨t, rfl, _, hsp⟩
+    · exact ih hi' hc' hg.2 hr hs
+    · have hS : txState s t = beginWrite s := by simp [txState, runSpOps, hsp]
+      refine ih hi' hc' hg.2 ?_ ?_
+      · show (commit s t).readers = []
+        rw [commit_readers, hS]
+        exact hr
+      · show (commit s t).sps = []
+        rw [commit_sps, hS]
+        have : (beginWrite s).sps = [] := hs
+        rw [this]
+        rfl
+
 /-! ## Non-vacuity: concrete histories (evaluated by `decide`) -/
 
 /-- durable commit with the given savepoint operations, new data tree, system tree, and system
